@@ -33,7 +33,7 @@ fn check_tx(ctx: &mut Ctx, t: &Transaction, what: &str) -> ([u8; 32], [u8; 32]) 
 
 /// One single-field edit of a transaction. Returns a label. The classification
 /// (witness-only or not) is decided by the reference model afterwards.
-fn edit_tx(r: &mut Rg, t: &mut Transaction) -> Option<String> {
+pub fn edit_tx(r: &mut Rg, t: &mut Transaction) -> Option<String> {
     let nin = t.input.len();
     let nout = t.output.len();
     let choice = r.gen_range(0..26);
